@@ -1,2 +1,232 @@
-(* Model/Sam.v — executable model; no proofs here. *)
+(* Model/Sam.v — executable model of package formats/sam (sam.go, iter.go,
+   tags.go); flag.go is translated mechanically into gen/FlagGen.v.
+   No proofs here.
+
+   Floats ('f' tags) are identified by their canonical text (Base.F); how the
+   writer prints one (strconv.FormatFloat(x,'e',-1,64)) and which texts
+   strconv.ParseFloat accepts come from the per-case oracle [o : foracle]. *)
+From Coq Require Import String.
 From Bio Require Import Base.
+
+(* Values of the optional tags: Go byte, int, float64, string, []byte. *)
+Inductive tagval : Type :=
+| TA (b : byte)
+| TI (z : Z)
+| TF (x : F)
+| TZ (s : bytes)
+| TH (h : bytes).
+
+(* map[string]any as an association list (unique keys). *)
+Definition tagmap := list (bytes * tagval).
+
+Record sam : Type := {
+  s_qname : bytes; s_flag : Z; s_rname : bytes; s_pos : Z; s_mapq : Z;
+  s_cigar : bytes; s_rnext : bytes; s_pnext : Z; s_tlen : Z;
+  s_seq : bytes; s_qual : bytes; s_tags : tagmap }.
+
+(* ---------------------------------------------------------------- *)
+(* encoding/hex: EncodeToString (lower case), DecodeString (either case,
+   even length).                                                      *)
+Definition hex_digit (n : N) : byte := if n <? 10 then 48 + n else 87 + n.
+Definition hex_encode (l : bytes) : bytes :=
+  flat_map (fun b => [hex_digit (b / 16); hex_digit (b mod 16)]) l.
+
+Definition hex_val (c : byte) : option N :=
+  if (48 <=? c) && (c <=? 57) then Some (c - 48)
+  else if (97 <=? c) && (c <=? 102) then Some (c - 87)
+  else if (65 <=? c) && (c <=? 70) then Some (c - 55)
+  else None.
+
+Fixpoint hex_decode (s : bytes) : option bytes :=
+  match s with
+  | [] => Some []
+  | [_] => None
+  | a :: b :: r =>
+    match hex_val a, hex_val b, hex_decode r with
+    | Some x, Some y, Some t => Some (16 * x + y :: t)
+    | _, _, _ => None
+    end
+  end.
+
+(* ---------------------------------------------------------------- *)
+(* tagToText / tagsToText                                             *)
+Definition COLON : byte := 58.
+
+Definition tag_type (v : tagval) : byte :=
+  match v with TA _ => 65 | TI _ => 105 | TF _ => 102 | TZ _ => 90 | TH _ => 72 end.
+
+Definition tag_value (o : foracle) (v : tagval) : bytes :=
+  match v with
+  | TA b => [b]                       (* string([]byte{val}) *)
+  | TI z => itoa z
+  | TF x => fmtF o x
+  | TZ s => s
+  | TH h => hex_encode h
+  end.
+
+(* tag + ":T:" + value *)
+Definition tag_text (o : foracle) (t : bytes * tagval) : bytes :=
+  fst t ++ COLON :: tag_type (snd t) :: COLON :: tag_value o (snd t).
+
+(* sort.Strings: bytewise order (equal strings are indistinguishable). *)
+Definition ble (a b : bytes) : bool :=
+  match bcompare a b with Gt => false | _ => true end.
+
+Fixpoint insert_sorted (x : bytes) (l : list bytes) : list bytes :=
+  match l with
+  | [] => [x]
+  | y :: r => if ble x y then x :: l else y :: insert_sorted x r
+  end.
+
+Definition sort_strings (l : list bytes) : list bytes := fold_right insert_sorted [] l.
+
+Definition tags_text (o : foracle) (m : tagmap) : list bytes :=
+  sort_strings (map (tag_text o) m).
+
+(* ---------------------------------------------------------------- *)
+(* SAM.Write: one chunk per Fprintf.                                  *)
+Definition fields11 (r : sam) : list bytes :=
+  [ s_qname r; itoa (s_flag r); s_rname r; itoa (s_pos r); itoa (s_mapq r);
+    s_cigar r; s_rnext r; itoa (s_pnext r); itoa (s_tlen r); s_seq r; s_qual r ].
+
+Definition write_calls (o : foracle) (r : sam) : list bytes :=
+  join_with [TAB] (fields11 r)
+  :: map (fun t => TAB :: t) (tags_text o (s_tags r)) ++ [[LF]].
+
+Definition write (o : foracle) (r : sam) : bytes := concat (write_calls o r).
+
+(* MarshalText: Write into a bytes.Buffer; the error is always nil. *)
+Definition marshal_text (o : foracle) (r : sam) : outcome bytes := Ok (write o r).
+
+(* ---------------------------------------------------------------- *)
+(* splitTag: the positions of the first two ':' (the loop ranges over runes,
+   but a ':' byte is never part of a multi-byte rune, so byte positions of the
+   byte 58 are what is found).                                        *)
+Fixpoint cut_at (sep : byte) (s : bytes) : option (bytes * bytes) :=
+  match s with
+  | [] => None
+  | c :: r =>
+    if c =? sep then Some ([], r)
+    else match cut_at sep r with
+         | Some (a, b) => Some (c :: a, b)
+         | None => None
+         end
+  end.
+
+Definition split_tag (t : bytes) : option (bytes * bytes * bytes) :=
+  match cut_at COLON t with
+  | None => None
+  | Some (name, rest) =>
+    match cut_at COLON rest with
+    | None => None                    (* colon2 == -1 *)
+    | Some (ty, v) => Some (name, ty, v)
+    end
+  end.
+
+(* result[k] = v on a Go map *)
+Fixpoint tag_set (k : bytes) (v : tagval) (m : tagmap) : tagmap :=
+  match m with
+  | [] => [(k, v)]
+  | (k', v') :: r => if beqb k' k then (k', v) :: r else (k', v') :: tag_set k v r
+  end.
+
+Definition parse_tag_value (o : foracle) (ty v : bytes) : option tagval :=
+  if beqb ty [65] then match v with [b] => Some (TA b) | _ => None end
+  else if beqb ty [105] then option_map TI (atoi v)
+  else if beqb ty [102] then option_map TF (parseF o v)
+  else if beqb ty [90] then Some (TZ v)
+  else if beqb ty [72] then option_map TH (hex_decode v)
+  else if beqb ty [66] then Some (TZ v)        (* 'B': kept as a string *)
+  else None.
+
+Fixpoint parse_tags_from (o : foracle) (m : tagmap) (values : list bytes) : outcome tagmap :=
+  match values with
+  | [] => Ok m
+  | f :: rest =>
+    match split_tag f with
+    | None => Err
+    | Some (name, ty, v) =>
+      match parse_tag_value o ty v with
+      | None => Err
+      | Some tv => parse_tags_from o (tag_set name tv m) rest
+      end
+    end
+  end.
+
+Definition parse_tags (o : foracle) (values : list bytes) : outcome tagmap :=
+  parse_tags_from o [] values.
+
+(* parseInts(strs, p...): panics when the lengths differ. *)
+Fixpoint parse_ints_loop (strs : list bytes) : outcome (list Z) :=
+  match strs with
+  | [] => Ok []
+  | s :: r =>
+    match atoi s with
+    | None => Err
+    | Some z => obind (parse_ints_loop r) (fun zs => Ok (z :: zs))
+    end
+  end.
+
+Definition parse_ints (strs : list bytes) (np : nat) : outcome (list Z) :=
+  if Nat.eqb (length strs) np then parse_ints_loop strs else Panic.
+
+Definition parse_line (o : foracle) (line : list bytes) : outcome sam :=
+  match line with
+  | f0 :: f1 :: f2 :: f3 :: f4 :: f5 :: f6 :: f7 :: f8 :: f9 :: f10 :: rest =>
+    obind (parse_ints [f1; f3; f4; f7; f8] 5) (fun zs =>
+      match zs with
+      | [fl; po; mq; pn; tl] =>
+        obind (parse_tags o rest) (fun m =>
+          Ok {| s_qname := f0; s_flag := fl; s_rname := f2; s_pos := po; s_mapq := mq;
+                s_cigar := f5; s_rnext := f6; s_pnext := pn; s_tlen := tl;
+                s_seq := f9; s_qual := f10; s_tags := m |})
+      | _ => Panic
+      end)
+  | _ => Err                              (* len(line) < 11 *)
+  end.
+
+(* ---------------------------------------------------------------- *)
+(* ReaderHeader / Reader                                              *)
+Inductive entry : Type :=
+| Hdr (h : bytes)          (* header line, including '@' *)
+| Aln (r : sam).
+
+(* One line as returned by ReadString with the LF removed. [parse_line]
+   cannot panic (SamProofs.parse_line_no_panic); the last branch is only there
+   to make the function total. *)
+Definition process_line (o : foracle) (raw : bytes) : list (item entry) :=
+  let text := drop_cr raw in
+  match text with
+  | [] => []                               (* empty lines are skipped *)
+  | c :: _ =>
+    if c =? 64 then [Rec (Hdr text)]
+    else match parse_line o (split_on TAB text) with
+         | Ok r => [Rec (Aln r)]
+         | Err => [ErrItem]
+         | Panic => [ErrItem]
+         end
+  end.
+
+Definition reader_header (o : foracle) (s : bytes) (t : term) : list (item entry) :=
+  let (ls, tail) := rs_lines s in
+  flat_map (process_line o) ls ++
+  match t with
+  | TEOF => process_line o tail            (* the unterminated last line *)
+  | TErr => [ErrItem]                      (* the partial line is discarded *)
+  end.
+
+Definition reader_filter (it : item entry) : list (item sam) :=
+  match it with
+  | ErrItem => [ErrItem]
+  | Rec (Hdr _) => []
+  | Rec (Aln r) => [Rec r]
+  end.
+
+Definition reader (o : foracle) (s : bytes) (t : term) : list (item sam) :=
+  flat_map reader_filter (reader_header o s t).
+
+(* A file: header lines then records, each line ended by [eol]. *)
+Definition with_eol (eol : bytes) (w : bytes) : bytes := removelast w ++ eol.
+
+Definition file_text (o : foracle) (eol : bytes) (hs : list bytes) (rs : list sam) : bytes :=
+  concat (map (fun h => h ++ eol) hs) ++ concat (map (fun r => with_eol eol (write o r)) rs).
